@@ -64,31 +64,41 @@ def leaves_of(entry):
     return [a for a in entry['syn'] if a[0] in ('reg', 'imm', 'lab', 'other')]
 
 
-def sample_values(rng, info, entry, k, kws):
-    """python operand values (register objects / ints / label strings) and model operand values"""
-    vals, mops = [], []
-    for a in leaves_of(entry):
-        if a[0] == 'reg' or (a[0] == 'other' and False):
-            objs = info.regclasses[a[1]]['objs']
-            i = 0 if k == 0 else len(objs) - 1 if k == 1 else rng.randrange(len(objs))
-            vals.append(objs[i])
-            mops.append(('r', i))
-        elif a[0] == 'imm':
-            z = rng.choice(IMM_POOL) if k < 3 or rng.random() < 0.7 else rng.randrange(-70000, 70000)
-            vals.append(z)
-            mops.append(('i', z))
-        elif a[0] == 'lab':
-            s = rng.choice([x for x in LABEL_POOL if x.lower() not in kws])
-            vals.append(s)
-            mops.append(('l', s))
-        else:
-            return None, None
-    return vals, mops
+SMALL_POOL = [0, 1, 2, 3, 4, 7, 8, 16, 33, 100, 256, 300]
+
+
+def imm_pool_for(info, entry):
+    """classes whose encoded size grows with an immediate (dzero n, ds n) only get small immediates"""
+    if 'imm_pool' in entry:
+        return entry['imm_pool']
+    lens = []
+    for z in (8, 40):
+        vals = []
+        for lk in entry.get('leafkinds') or []:
+            if lk[0] == 'reg':
+                vals.append(info.regclasses[lk[1]]['objs'][0])
+            elif lk[0] == 'imm':
+                vals.append(z)
+            elif lk[0] == 'lab':
+                vals.append('lbl')
+            else:
+                vals = None
+                break
+        if vals is None:
+            break
+        try:
+            lens.append(len(entry['build'](list(vals)).encode()))
+        except Exception:   # noqa: BLE001
+            lens.append(None)
+    small = len(lens) == 2 and lens[0] is not None and lens[1] is not None and lens[0] != lens[1]
+    entry['imm_pool'] = SMALL_POOL if small else IMM_POOL
+    return entry['imm_pool']
 
 
 def sample_instances(rng, info, entry, n, kws, tries=40):
     """up to n distinct (instance, values, model operands) whose encode() succeeds"""
     out, seen = [], set()
+    entry['_pool'] = imm_pool_for(info, entry)
     want = n if leaves_of(entry) else 1
     for t in range(tries):
         if len(out) >= want:
@@ -124,7 +134,8 @@ def sample_values_any(rng, info, entry, k, kws):
             vals.append(objs[i])
             mops.append(('r', i))
         elif a[0] == 'imm':
-            z = rng.choice(IMM_POOL) if k < 3 or rng.random() < 0.7 else rng.randrange(-70000, 70000)
+            pool = entry.get('_pool', IMM_POOL)
+            z = rng.choice(pool) if pool is SMALL_POOL or k < 3 or rng.random() < 0.7 else rng.randrange(-70000, 70000)
             vals.append(z)
             mops.append(('i', z))
         elif a[0] == 'lab':
